@@ -123,6 +123,7 @@ def stepArg (tbl : Table) (acc : Accepts) (a : PAcc) (m : Mode) (arg : Str) : Op
   | .look =>
     match arg with
     | [45, 45] => some (a, .collect)
+    | [45] => some ({ a with rest := a.rest ++ [arg] }, .collect)     -- a lone "-" is the first positional
     | 45 :: 45 :: body =>
       match tbl (splitEq body).1 with
       | none => none
@@ -470,7 +471,10 @@ the parameter `orc`.  (For `*bool`, `*int64`, `*uint64`, `*float64` and `*time.D
 of the failed conversion before returning the error; the error is fatal, so that store is never observed.) -/
 
 abbrev Var := List String
-abbrev Store := Nat → Var     -- by option id
+/-- the variables by option id: the latest entry for an id is its current contents -/
+abbrev Store := List (Nat × Var)
+
+def Store.get (st : Store) (id : Nat) : Var := (st.lookup id).getD []
 
 def setVar (orc : Oracle) (k : Kind) (cur : Var) (raw : Str) : Option Var :=
   match k.base, k.slice with
@@ -498,9 +502,9 @@ def setOpt (orc : Oracle) (includeDefault : Bool) (decls : List Decl) (st : Stor
   match kindOfId includeDefault decls p.1 with
   | none => st
   | some k =>
-    match setVar orc k (st p.1) p.2 with
+    match setVar orc k (st.get p.1) p.2 with
     | none => st
-    | some v => fun j => if j = p.1 then v else st j
+    | some v => (p.1, v) :: st
 
 /-- the assignments of a run applied in order -/
 def applySets (orc : Oracle) (includeDefault : Bool) (decls : List Decl) (st : Store) (sets : List (Nat × Str)) : Store :=
@@ -509,18 +513,20 @@ def applySets (orc : Oracle) (includeDefault : Bool) (decls : List Decl) (st : S
 /-- the caller's initial contents of a variable (given as raw strings, converted with the conversion of the kind) -/
 def initVar (orc : Oracle) (k : Kind) (defs : List Str) : Var := defs.filterMap (typed orc k.base)
 
-def initStore (orc : Oracle) (decls : List Decl) : Store := fun id =>
-  if id < firstUserId then ["false"]
-  else match decls[id - firstUserId]? with
-    | some d => initVar orc d.kind d.defs
-    | none => []
+def initStoreFrom (orc : Oracle) : Nat → List Decl → Store
+  | _, [] => []
+  | id, d :: ds => (id, initVar orc d.kind d.defs) :: initStoreFrom orc (id + 1) ds
+
+/-- the built-in flags (fields of the CmdLine) start false, the declared variables with the caller's contents -/
+def initStore (orc : Oracle) (decls : List Decl) : Store :=
+  (idHelp, ["false"]) :: (idVersion, ["false"]) :: (idLongVersion, ["false"]) :: initStoreFrom orc firstUserId decls
 
 def renderVar (d : Decl) (v : Var) : String :=
   if d.kind.slice || d.kind.base == .log then "[" ++ ",".intercalate v ++ "]" else ",".intercalate v
 
 def renderStoreOpts (st : Store) : Nat → List Decl → List String
   | _, [] => []
-  | id, d :: ds => renderVar d (st id) :: renderStoreOpts st (id + 1) ds
+  | id, d :: ds => renderVar d (st.get id) :: renderStoreOpts st (id + 1) ds
 
 /-- what the driver prints: the option variables after all `Set` calls of the run, then the remaining arguments -/
 def renderStore (orc : Oracle) (includeDefault : Bool) (decls : List Decl) : Outcome → String
